@@ -606,4 +606,6 @@ def run(repo: Repo, rep: Report, tier: str) -> None:
     from .c09 import absolute_padding_rule
 
     shape_rule(repo, rep, tier, absolute_padding_rule, "C03.R23")
+    from .memo import memo_rule
 
+    memo_rule(repo, rep, "C03.R26")
